@@ -123,7 +123,8 @@ theorem discrete_action_stored_as_is (noise : Option (List α)) (u : List α) :
 /-- **One loop iteration** (any state, any well-formed external input whose terminal observations survive the
 `VecNormalize` round trip): exactly one row is appended; it holds the raw observation the action was computed
 from, the sub-environments' own observations as successors (the terminal one where an episode ended — never the
-reset observation; as the outer observation wrapper presents them), the raw rewards,
+reset observation, and never a stale `terminal_observation` an env's reused info dict still carries from an
+earlier episode, `RawStep.staleTerm`; as the outer observation wrapper presents them), the raw rewards,
 `done = terminated ∨ truncated`, `timeout = truncated ∧ ¬terminated`; the policy's input was `_last_obs`;
 afterwards the raw last observation is the reset observation for finished envs and the new observation
 otherwise. -/
@@ -364,7 +365,7 @@ example : (run exCfg exCalls).st.trace.map (fun o => (o.warmup, o.noiseReset)) =
     [(true, [1]), (false, [0]), (false, [1])] := by decide +kernel
 
 /-- `wrapCfg'`, `wrapCalls'`: the coordinate-swapping wrapper *without* `VecNormalize`, an episode that ends at the
-first step: the rows hold the wrapped observations, the wrapped terminal observation `[4, 3]` (not the wrapped
+first step, an env whose reused info dict still holds that terminal observation at the second step: the rows hold the wrapped observations, the wrapped terminal observation `[4, 3]` (not the wrapped
 reset observation `[6, 5]`), and the next row starts from the wrapped reset observation. -/
 example : (run wrapCfg' wrapCalls').st.buffer.map (fun r => (r.obs, r.nextObs, r.done)) =
     [ ([[2, 1]], [[4, 3]], [true]), ([[6, 5]], [[8, 7]], [false]) ] := by decide +kernel
